@@ -34,6 +34,7 @@ META = {
         "inv.region",
         "inv.mesh",
     ],
+    "owns": ["inv.region", "inv.mesh", "inv.mesh.subregions", "inv.field.array", "inv.field.valid"],
     "ambient": {"quick": [], "thorough": ["discretisedfield/tests/test_region.py",
                                           "discretisedfield/tests/test_mesh.py"]},
     "anchor_files": ["discretisedfield/region.py", "discretisedfield/mesh.py",
